@@ -29,6 +29,10 @@ def run(ctx):
         cases.append({'seed': ctx.seed * 1009 + 5000 + int(inc) + 2 * int(reader), 'incremental': inc, 'reader': reader, 'target': 4 * 1024 ** 3,
                       'mut_ops': [['add', 2], ['pack', 'no', True], ['clean'], ['direct', 1, False]],
                       'nk': ctx.pick(1, 6), 'pair_p': 1.0, 'special_p': 1.0, 'ntriples': ctx.pick(1, 6)})
+    # a client that packs without fsync (a documented option): its pack tail sits in the user-space buffer until the pack is closed
+    cases.append({'seed': ctx.seed * 1009 + 6000, 'incremental': False, 'reader': False, 'target': 4 * 1024 ** 3,
+                  'mut_ops': [['add', 3], ['pack', 'no', False, False], ['clean'], ['add', 1], ['pack', 'yes', True, False]],
+                  'nk': ctx.pick(1, 6), 'pair_p': 1.0, 'special_p': 1.0, 'ntriples': ctx.pick(0, 4)})
     ctx.map(backuplab.run_cases, cases)
 
 
